@@ -34,13 +34,14 @@ type c07Delivery struct {
 type c07Script struct {
 	Asm        bool          `json:"asm"`
 	AEAD       aeadSpec      `json:"aead"`
+	Prior      []aeadSpec    `json:"prior,omitempty"` // AEADs built earlier on the same Block (key field ignored)
 	Msgs       []c07Msg      `json:"msgs"`
 	Deliveries []c07Delivery `json:"deliveries"`
 }
 
 type c07 struct{}
 
-func init() { core.Register(c07{}) }
+func init()            { core.Register(c07{}) }
 func (c07) ID() string { return "C07" }
 
 func (c07) Plan(tier string) core.Plan {
@@ -66,7 +67,7 @@ func (c07) Meta() core.Meta {
 			"oracle": "the wire's own record (byte identity with a sealed triple); keystream for the would-be plaintext from the library's own Seal of zeros"},
 		Assumptions: []string{"a delivered triple that differs from every sealed one is not authentic (a chance forgery has probability <= 2^-96)", "nonce corruption keeps the nonce length (a wrong-length nonce panics by crypto/cipher convention and is API misuse)",
 			"leak check of rejected plaintext in caller-visible memory only for bodies >= 16 bytes (chance match <= 2^-128)"},
-		FaultKinds: []string{"wire:flip:body", "wire:flip:tag", "wire:flip:nonce", "wire:flip:aad", "wire:trunc<tag", "wire:trunc>=tag", "wire:extend", "wire:tailsplice", "wire:splice:nonce", "wire:splice:aad", "wire:splice:ct", "wire:insert", "wire:drop", "replay", "untouched"},
+		FaultKinds: []string{"wire:flip:body", "wire:flip:tag", "wire:flip:nonce", "wire:flip:aad", "wire:trunc<tag", "wire:trunc>=tag", "wire:extend", "wire:tailsplice", "wire:splice:nonce", "wire:splice:aad", "wire:splice:ct", "wire:insert", "wire:drop", "replay", "untouched", "history:other-aeads-on-same-block"},
 		ProbeNames: []string{"authentic-opened", "forgery-rejected", "reassembled-original", "shorter-than-tag", "empty-plaintext", "dst-leak-checked", "nonce!=12", "tag<16"},
 		StepUnit:   "deliveries + seal/open calls",
 	}
@@ -144,6 +145,15 @@ func (c07) Generate(idx int, r *core.Rand, tier string) core.Script {
 	w := r.Split("workload")
 	f := r.Split("faults")
 	s := &c07Script{Asm: w.Chance(3, 4), AEAD: genAEADSpec(w)}
+	if w.Chance(1, 4) {
+		for i := w.Range(1, 2); i > 0; i-- {
+			p := genAEADSpec(w)
+			if w.Chance(1, 2) {
+				p.NonceSize = s.AEAD.NonceSize
+			}
+			s.Prior = append(s.Prior, p)
+		}
+	}
 	nm := w.Range(1, 4)
 	for i := 0; i < nm; i++ {
 		m := c07Msg{PtLen: c10GenLen(w), AadLen: w.PickInt(0, 0, 1, 13, 16, 17, 32, 100, 129, 300), PtSeed: w.Uint64(), AadSeed: w.Uint64(), NonceSeed: w.Uint64()}
@@ -223,9 +233,12 @@ func (c07) Execute(sc core.Script, keep bool) *core.Result {
 	var sealed []c07Sealed
 	if p, txt, _, _ := core.Catch(func() {
 		var err error
-		a, _, spec, err = mkAEAD(s.AEAD, asm)
+		a, _, spec, err = mkAEADHistory(s.AEAD, unhx(s.AEAD.Key), asm, s.Prior)
 		if err != nil {
 			panic(err)
+		}
+		if len(s.Prior) > 0 {
+			res.Faults["history:other-aeads-on-same-block"]++
 		}
 		// sealer node: fault-free
 		for i, m := range s.Msgs {
@@ -437,6 +450,11 @@ func (c07) Shrinks(sc core.Script) []core.Script {
 	if len(s.Msgs) > 1 {
 		c := cp()
 		c.Msgs = c.Msgs[:1]
+		out = append(out, c)
+	}
+	if len(s.Prior) > 0 {
+		c := cp()
+		c.Prior = nil
 		out = append(out, c)
 	}
 	for i, m := range s.Msgs {
